@@ -523,6 +523,7 @@ impl<'a> Parser<'a> {
 
         if let Some(b':') = self.peek() {
             self.bump();
+            let secs_start = self.i;
             let (secs_u, d3) = self.read_uint_unders_to_u32()?;
             if secs_u > 59 {
                 return Err(self.err("seconds out of range in sexagesimal literal"));
@@ -534,7 +535,13 @@ impl<'a> Parser<'a> {
                 self.bump();
                 let (frac, df) = self.read_frac_part_unders()?;
                 total_digits += df;
-                secs += frac;
+                // The seconds field is one decimal number: take its correctly rounded value
+                // (adding a separately accumulated fraction rounds twice).
+                let field: String = self.s[secs_start..self.i]
+                    .chars()
+                    .filter(|c| *c != '_')
+                    .collect();
+                secs = field.parse::<f64>().unwrap_or(secs + frac);
             }
         }
 
